@@ -66,6 +66,14 @@ let run (hist : string) (impl : string) =
           let i = if k < Array.length ievs then snd ievs.(k) else [] in
           if List.length i > 1 then Hashtbl.replace nontriv (string_of_int idx ^ text ^ String.concat "|" i) ();
           if m <> i then mismatch k (Printf.sprintf "model=[%s] impl=[%s] event=%s" (String.concat "; " m) (String.concat "; " i) text);
+          (* C19: the model's callback and completion times ARE the exact schedule (the C19 theorems): an
+             implementation whose retry callbacks / completion fall on other instants violates C19 on
+             this very history *)
+          let sched l = List.filter (fun x -> match split_on ' ' x with
+              | "O" :: _ :: ("CALLBACK" | "DONE") :: _ -> true | _ -> false) l in
+          if sched m <> sched i then
+            fail "C19" "retry-schedule" k (Printf.sprintf "exact schedule=[%s] implementation=[%s] event=%s"
+                                             (String.concat "; " (sched m)) (String.concat "; " (sched i)) text);
           (* C18 on the implementation's own trace *)
           List.iter (fun l ->
               (match split_on ' ' l with
